@@ -1078,6 +1078,38 @@ def r_merge_shape(ctx, repo):
             rule.fail('%s|own-order|%d' % (f.qualname, n_other), f.module.rel, m.node.lineno, f.qualname, norm(m.stmt)[:70],
                       'node.value is rearranged by something else than deleting merge keys and prepending the merged pairs: merged '
                       'pairs that do not precede all own pairs override keys the mapping defines itself')
+    # nothing is filtered out of the merged pairs: the list that is prepended only grows (append / extend / + / reverse) -
+    # a pair that is dropped is a node that is never constructed, so its tag is never dispatched (and never rejected)
+    prepended = set()
+    for m in muts:
+        if m.kind == 'rebind' and isinstance(m.stmt, ast.Assign) and isinstance(m.stmt.value, ast.BinOp) \
+                and isinstance(m.stmt.value.op, ast.Add) and norm(m.stmt.value.right) == own and isinstance(m.stmt.value.left, ast.Name):
+            prepended.add(m.stmt.value.left.id)
+    n_filter = 0
+    for L in sorted(prepended):
+        for n in walk_function(f.node):
+            bad = None
+            if isinstance(n, ast.Assign) and any(isinstance(t, ast.Name) and t.id == L for t in n.targets):
+                v = n.value
+                if isinstance(v, (ast.ListComp, ast.GeneratorExp)) and any(g.ifs for g in v.generators):
+                    bad = 'rebuilt by a filtering comprehension'
+                elif isinstance(v, ast.Call) and norm(v.func) in ('filter', 'list') and v.args and \
+                        any(isinstance(x, (ast.ListComp, ast.GeneratorExp)) and any(g.ifs for g in x.generators) or
+                            (isinstance(x, ast.Call) and norm(x.func) == 'filter') for x in ast.walk(v)):
+                    bad = 'rebuilt through a filter'
+                elif isinstance(v, ast.Subscript) and isinstance(v.slice, ast.Slice):
+                    bad = 'cut by a slice'
+            elif isinstance(n, ast.Delete) and any(isinstance(t, ast.Subscript) and isinstance(t.value, ast.Name) and t.value.id == L
+                                                   for t in n.targets):
+                bad = 'entries deleted'
+            elif isinstance(n, ast.Call) and isinstance(n.func, ast.Attribute) and isinstance(n.func.value, ast.Name) \
+                    and n.func.value.id == L and n.func.attr in ('remove', 'pop', 'clear'):
+                bad = 'entries removed with .%s()' % n.func.attr
+            if bad:
+                n_filter += 1
+                rule.fail('%s|filtered|%d' % (f.qualname, n_filter), f.module.rel, n.lineno, f.qualname, norm(n)[:70],
+                          'the list of merged pairs is %s before it is prepended: a merged pair that is dropped is never '
+                          'constructed, so whatever tag it carries is never dispatched and never rejected' % bad)
     if n_del >= 1 and n_prepend >= 1:
         rule.ok(f.loc(), 'node.value: merge keys deleted, merged pairs prepended')
     elif not rule.failed:
